@@ -13,16 +13,17 @@ Definition req_ok (e : event) : Prop :=
   | _ => True
   end.
 
-Definition prod_events (st : mstate) (h time src : N) (dl : Z) : list event :=
-  [EProduce h time src dl (now_i st) (last_height st); ESeal h; ECommit h time true (last_height st)].
+Definition prod_events (st : mstate) (h time src : N) (dl a' : Z) : list event :=
+  [EProduce h time src dl (now_i st) (last_height st); ESeal h; ECommit h time true (last_height st);
+   EImported h time true a'].
 
-(* produce_block: the port calls are a prefix of produce; seal; commit of the same block,
+(* produce_block: the port calls are a prefix of produce; seal; commit; announcement of the same block,
    a failure leaves (last_height, last_timestamp, last_block_created) and the database alone,
    a produced block's time is not below last_timestamp *)
 Lemma produce_block_spec : forall st signer h time src dl fail idx,
   let '(st', ok, called, ev) := produce_block st signer h time src dl fail idx in
-  (exists n, ev = firstn n (prod_events st h time src dl)) /\
-  (ok = true -> ev = prod_events st h time src dl /\ last_height st' = h /\
+  (exists n a', ev = firstn n (prod_events st h time src dl a') /\ (Z.max (now_i st) dl <= a')%Z) /\
+  (ok = true -> (exists a', ev = prod_events st h time src dl a') /\ last_height st' = h /\
                 last_timestamp st' = time /\ db st' = db_up (db st) h time /\
                 last_created st' = match trig st with
                                    | TOpen _ => Z.max dl (now_i st) | _ => now_i st end) /\
@@ -31,35 +32,45 @@ Lemma produce_block_spec : forall st signer h time src dl fail idx,
   (ev <> [] -> last_timestamp st <= time) /\
   trig st' = trig st /\ (now_i st <= now_i st')%Z.
 Proof.
-  intros. unfold produce_block.
+  intros. unfold produce_block, production_timeout_ms, slow_producer_ms.
   destruct signer; cbn [negb].
-  2:{ split; [exists 0%nat; reflexivity|]. split; [discriminate|]. split; [repeat split; auto|].
-      split; [congruence|]. split; [reflexivity | lia]. }
+  2:{ split; [exists 0%nat, (Z.max (now_i st) dl); split; [reflexivity | lia]|]. split; [discriminate|].
+      split; [repeat split; auto|]. split; [congruence|]. split; [reflexivity | lia]. }
   destruct (time <? last_timestamp st) eqn:Et.
-  { split; [exists 0%nat; reflexivity|]. split; [discriminate|]. split; [repeat split; auto|].
-    split; [congruence|]. split; [reflexivity | lia]. }
+  { split; [exists 0%nat, (Z.max (now_i st) dl); split; [reflexivity | lia]|]. split; [discriminate|].
+    split; [repeat split; auto|]. split; [congruence|]. split; [reflexivity | lia]. }
   destruct (fail_is fail idx 0).
-  { split; [exists 1%nat; reflexivity|]. split; [discriminate|].
-    split; [repeat split; auto|].
-    split; [intros _; lia|]. split; [reflexivity | lia]. }
-  destruct (fail_is fail idx 1).
-  { split; [exists 2%nat; reflexivity|]. split; [discriminate|].
-    split; [repeat split; auto|].
-    split; [intros _; lia|]. split; [reflexivity | cbn; lia]. }
-  destruct (fail_is fail idx 2) eqn:E2.
-  { split; [exists 3%nat; reflexivity|]. split; [discriminate|].
-    split; [repeat split; auto|].
-    split; [intros _; lia|]. split; [reflexivity | cbn; lia]. }
-  split; [exists 3%nat; reflexivity|].
-  split; [intros _; repeat split; cbn; destruct (trig st); reflexivity|].
-  split; [discriminate|]. split; [intros _; lia|]. split; [reflexivity | cbn; lia].
+  { split; [exists 1%nat, (Z.max (now_i st) dl); split; [reflexivity | lia]|]. split; [discriminate|].
+    split; [repeat split; auto|]. split; [intros _; lia|]. split; [reflexivity | lia]. }
+  destruct (fail_is fail idx 3).
+  { split; [exists 1%nat, (Z.max (now_i st) dl); split; [reflexivity | lia]|]. split; [discriminate|].
+    split; [repeat split; auto|]. split; [intros _; lia|]. split; [reflexivity | cbn; lia]. }
+  destruct (fail_is fail idx 4).
+  - destruct (fail_is fail idx 1).
+    { split; [exists 2%nat, (Z.max (now_i st) dl); split; [reflexivity | lia]|]. split; [discriminate|].
+      split; [repeat split; auto|]. split; [intros _; lia|]. split; [reflexivity | cbn; lia]. }
+    destruct (fail_is fail idx 2).
+    { split; [exists 3%nat, (Z.max (now_i st) dl); split; [reflexivity | lia]|]. split; [discriminate|].
+      split; [repeat split; auto|]. split; [intros _; lia|]. split; [reflexivity | cbn; lia]. }
+    split; [eexists 4%nat, _; split; [reflexivity | cbn; lia]|].
+    split; [intros _; split; [eexists; reflexivity|]; repeat split; cbn; destruct (trig st); reflexivity|].
+    split; [discriminate|]. split; [intros _; lia|]. split; [reflexivity | cbn; lia].
+  - destruct (fail_is fail idx 1).
+    { split; [exists 2%nat, (Z.max (now_i st) dl); split; [reflexivity | lia]|]. split; [discriminate|].
+      split; [repeat split; auto|]. split; [intros _; lia|]. split; [reflexivity | cbn; lia]. }
+    destruct (fail_is fail idx 2).
+    { split; [exists 3%nat, (Z.max (now_i st) dl); split; [reflexivity | lia]|]. split; [discriminate|].
+      split; [repeat split; auto|]. split; [intros _; lia|]. split; [reflexivity | cbn; lia]. }
+    split; [eexists 4%nat, _; split; [reflexivity | cbn; lia]|].
+    split; [intros _; split; [eexists; reflexivity|]; repeat split; cbn; destruct (trig st); reflexivity|].
+    split; [discriminate|]. split; [intros _; lia|]. split; [reflexivity | cbn; lia].
 Qed.
 
-Lemma firstn_prod_req : forall n st h time src dl,
-  h = last_height st + 1 -> Forall req_ok (firstn n (prod_events st h time src dl)).
+Lemma firstn_prod_req : forall n st h time src dl a',
+  h = last_height st + 1 -> Forall req_ok (firstn n (prod_events st h time src dl a')).
 Proof.
-  intros n st h time src dl Hh. unfold prod_events.
-  destruct n as [|[|[|[|n]]]]; cbn [firstn]; repeat constructor; cbn [req_ok]; auto.
+  intros n st h time src dl a' Hh. unfold prod_events.
+  destruct n as [|[|[|[|[|n]]]]]; cbn [firstn]; repeat constructor; cbn [req_ok]; auto.
 Qed.
 
 Lemma produce_block_req : forall st signer time src dl fail idx,
@@ -67,7 +78,7 @@ Lemma produce_block_req : forall st signer time src dl fail idx,
 Proof.
   intros. pose proof (produce_block_spec st signer (next_height st) time src dl fail idx) as H.
   destruct (produce_block st signer (next_height st) time src dl fail idx) as [[[st' ok] called] ev].
-  cbn [snd]. destruct H as [[n ->] _]. apply firstn_prod_req. reflexivity.
+  cbn [snd]. destruct H as [[n [a' [-> _]]] _]. apply firstn_prod_req. reflexivity.
 Qed.
 
 Lemma manual_loop_req : forall n st signer bt fail idx,
@@ -87,31 +98,45 @@ Lemma reconcile_req : forall bs nh st, Forall req_ok (snd (reconcile nh st bs)).
 Proof.
   induction bs as [|[[off t] ok] r IH]; intros; cbn [reconcile]; [constructor|].
   destruct (nh + off - 1 <=? last_height st) eqn:E; [apply IH|].
-  match goal with |- context [reconcile nh ?s r] => specialize (IH nh s); destruct (reconcile nh s r) as [st2 ev] end.
-  cbn [snd] in *. constructor; [cbn [req_ok]; lia | exact IH].
+  destruct ok.
+  - match goal with |- context [reconcile nh ?s r] => specialize (IH nh s); destruct (reconcile nh s r) as [st2 ev] end.
+    cbn [snd] in *. constructor; [cbn [req_ok]; lia|]. constructor; [exact Logic.I | exact IH].
+  - match goal with |- context [reconcile nh ?s r] => specialize (IH nh s); destruct (reconcile nh s r) as [st2 ev] end.
+    cbn [snd] in *. constructor; [cbn [req_ok]; lia | exact IH].
 Qed.
 
 (* every request of every operation is for the height after the one known when it is made
    (reconciliation imports: above the known height) *)
 Lemma requests_next_height_all : forall st o, Forall req_ok (snd (step st o)).
 Proof.
-  intros st o. destruct o as [clock signer l fail | clock signer start m fail | | |]; cbn [step];
+  intros st o. destruct o as [clock signer l fail mid pd | clock signer start m fail | | |]; cbn [step];
     try (cbn [snd]; constructor).
-  - assert (G : forall s dl, Forall req_ok (snd (try_to_produce_block s clock signer l fail dl))).
-    { intros s dl. unfold try_to_produce_block. destruct l as [| | |bs]; cbn [snd].
-      - repeat constructor.
-      - repeat constructor.
-      - destruct (next_time_trigger (resync s) clock) as [t|].
-        + pose proof (produce_block_req (resync s) signer t 0 dl fail 0) as Hp.
-          destruct (produce_block (resync s) signer (next_height (resync s)) t 0 dl fail 0)
+  - assert (G : forall s dl, Forall req_ok (snd (try_to_produce_block s clock signer l fail mid dl))).
+    { intros s dl. unfold try_to_produce_block.
+      assert (Hm : Forall req_ok (snd (apply_mid s mid))).
+      { destruct mid as [[dd t]|]; cbn [apply_mid snd]; repeat constructor. }
+      destruct (apply_mid s mid) as [s0 ev0]. cbn [snd] in Hm.
+      destruct l as [| | |bs]; cbn [snd].
+      - apply Forall_app. split; [exact Hm | repeat constructor].
+      - apply Forall_app. split; [exact Hm | repeat constructor].
+      - destruct (next_time_trigger (resync s0) clock) as [t|].
+        + pose proof (produce_block_req (resync s0) signer t 0 dl fail 0) as Hp.
+          destruct (produce_block (resync s0) signer (next_height (resync s0)) t 0 dl fail 0)
             as [[[s2 ok] called] ev]. cbn [snd] in Hp.
-          destruct ok; cbn [snd]; constructor; try reflexivity; [exact Hp|].
+          destruct ok; cbn [snd]; apply Forall_app; (split; [exact Hm|]);
+            constructor; try reflexivity; [exact Hp|].
           apply Forall_app. split; [exact Hp | repeat constructor].
-        + cbn [snd]. repeat constructor.
-      - pose proof (reconcile_req bs (next_height (resync s)) (resync s)) as Hr.
-        destruct (reconcile (next_height (resync s)) (resync s) bs) as [s2 ev]. cbn [snd] in *.
-        constructor; [reflexivity | exact Hr]. }
-    unfold tick. destruct (trig st); try apply G. cbn [snd]. constructor.
+        + cbn [snd]. apply Forall_app. split; [exact Hm | repeat constructor].
+      - pose proof (reconcile_req bs (next_height (resync s0)) (resync s0)) as Hr.
+        destruct (reconcile (next_height (resync s0)) (resync s0) bs) as [s2 ev]. cbn [snd] in *.
+        apply Forall_app. split; [exact Hm|]. constructor; [reflexivity | exact Hr]. }
+    unfold tick. destruct pd as [delta|].
+    + unfold produce_predefined.
+      destruct signer; cbn [negb snd]; [|constructor].
+      destruct (fail_is fail 0 0); [cbn [snd]; repeat constructor|].
+      destruct (fail_is fail 0 1); [cbn [snd]; repeat constructor|].
+      destruct (fail_is fail 0 2); cbn [snd]; repeat constructor.
+    + destruct (trig st); try apply G. cbn [snd]. constructor.
   - unfold produce_manual_blocks.
     assert (G : forall bt, Forall req_ok (snd (let '(st', ok, ev) :=
                match m with
@@ -130,11 +155,11 @@ Proof.
 Qed.
 
 (* the run loop's deadline under Trigger::Interval *)
-Lemma interval_deadline_all : forall st clock signer l fail bt,
+Lemma interval_deadline_all : forall st clock signer l fail mid bt,
   trig st = TInterval bt ->
   let dl := Z.max (now_i st) (last_created st + ms bt)%Z in
-  tick st clock signer l fail = try_to_produce_block (set_now st dl) clock signer l fail dl.
-Proof. intros st clock signer l fail bt H. unfold tick. rewrite H. reflexivity. Qed.
+  tick st clock signer l fail mid None = try_to_produce_block (set_now st dl) clock signer l fail mid dl.
+Proof. intros st clock signer l fail mid bt H. unfold tick. rewrite H. reflexivity. Qed.
 
 Lemma resync_keeps : forall st,
   last_timestamp (resync st) = last_timestamp st /\ db (resync st) = db st /\
@@ -155,17 +180,17 @@ Proof.
   intros st signer h time src dl fail idx dh dt Hdb Hle.
   pose proof (produce_block_spec st signer h time src dl fail idx) as H.
   destruct (produce_block st signer h time src dl fail idx) as [[[st' ok] called] ev]. cbn [snd].
-  destruct H as [[n Hev] [_ [_ [Hne _]]]]. subst ev.
+  destruct H as [[n [a' [Hev _]]] [_ [_ [Hne _]]]]. subst ev.
   destruct n as [|n]; [constructor|].
   assert (Ht : last_timestamp st <= time) by (apply Hne; destruct n; discriminate).
-  unfold prod_events. destruct n as [|[|[|n]]]; cbn [firstn]; repeat constructor; lia.
+  unfold prod_events. destruct n as [|[|[|[|n]]]]; cbn [firstn]; repeat constructor; lia.
 Qed.
 
 (* A1, refuted in general: the resync adopts the database height 2 but keeps timestamp 1000;
    the next block (height 3) is requested with time 1003, before the database block's 1010 *)
 Lemma block_time_vs_db_refuted_all :
   exists st clock, db st = Some (2, 1010) /\ last_height st < 2 /\
-    In (EProduce 3 1003 0 1000%Z 1000%Z 2) (snd (tick st clock true LLeader None)).
+    In (EProduce 3 1003 0 1000%Z 1000%Z 2) (snd (tick st clock true LLeader None None None)).
 Proof.
   exists (set_db (init (TInterval 1) 1 1000 1000) (Some (2, 1010))), 1003.
   vm_compute. repeat split; try reflexivity. right. left. reflexivity.
@@ -175,14 +200,20 @@ Qed.
    requested, two above the known height *)
 Lemma exec_after_failed_import_refuted_all :
   exists st, last_height st = 4 /\
-    In (EExec 6 1005 4) (snd (tick st 1011 true (LBlocks [(1, 1004, false); (2, 1005, true)]) None)).
+    In (EExec 6 1005 4) (snd (tick st 1011 true (LBlocks [(1, 1004, false); (2, 1005, true)]) None None None)).
 Proof.
   exists (init TInstant 4 1003 1003). vm_compute. split; [reflexivity|]. right. right. left. reflexivity.
 Qed.
 
+Fixpoint mrun (st : mstate) (ops : list op) : list (mstate * result * list event) :=
+  match ops with
+  | [] => []
+  | o :: r => let '(st', res, ev) := step st o in (st', res, ev) :: mrun st' r
+  end.
+
 Example ex_run :
   map (fun x => last_height (fst (fst x)))
-      (run (init (TInterval 2) 1 1000 1000)
-           [OTick 1003 true LLeader None; OTick 1004 true LLeader (Some (0, 2));
+      (mrun (init (TInterval 2) 1 1000 1000)
+           [OTick 1003 true LLeader None None None; OTick 1004 true LLeader (Some (0, 2)) None None;
             OManual 1005 true None (MBlocks 2) None]) = [2; 2; 4].
 Proof. vm_compute. reflexivity. Qed.
